@@ -163,6 +163,19 @@ def rule_handout(ctx):
     ds = local_defs(cu, "state")
     ok = ok and len(ds) == 1 and unparse(def_value(ds[0])) == "self._assignment.state_value(self._topic_partition)"
     ctx.ob(R, fu, fu.node, ok, "_update_position does not move this partition to next_fetch_offset", text="update-position")
+    # once the position has moved, the call must hand out what it took: nothing that can raise (in particular no further take from the
+    # records iterator, which validates CRCs and runs the user's deserializers) may run before the return
+    for m in ("getone", "getall"):
+        fx = ctx.fn(f"{FR}.{m}")
+        cx = ctx.cfg(fx)
+        ups = cx.calls(attr="_update_position")
+        ctx.anchor(len(ups) >= 1, f"_update_position() call in {m}")
+        for u in ups:
+            after = cx.reachable([u], exc=False)
+            risky = [n for n in after if n.kind in ("await", "raise") or (n.kind == "fornext")
+                     or (n.kind == "call" and not (unparse(n.ast.func) in ("len", "isinstance") or unparse(n.ast.func).startswith("log.")))]
+            ctx.ob(R, fx, u, not risky, f"{m}: after the position moved the call can still run {[unparse(x.ast)[:50] if x.kind != 'fornext' else 'next iteration of ' + unparse(x.ast.iter)[:40] for x in risky[:3]]}; "
+                                        "when that raises, the records already taken are dropped with the exception but the position is past them", text=f"{m}:nothing-after-position-moved")
     # getall: max_records break updates the position as well (covered by position-after-take), returns what it took
     fg = ctx.fn(f"{FR}.getall")
     cg = ctx.cfg(fg)
